@@ -26,14 +26,14 @@ ENGINE = 'E-HIST (BFS over request histories on one application/thread, fresh im
 RULE = ('states = distinct canonical renderings of the retained state (application + ombott module state incl. traceback '
         'lengths) reached; transitions = requests served from those states, each compared with the same request on a fresh '
         'process state; non-trivial = transitions from a non-initial state')
-ASSUMPTIONS = ['one worker thread; the default application with max_body_size=8; debug off',
+ASSUMPTIONS = ['one worker thread; the default application with max_body_size=200; debug off',
                'retention is judged by closure of the canonical state space within the depth bound and by k^N runs (N=2000 / 5000)']
 MANIFEST = {
     'engines': ['E-HIST'],
     'technique': 'explicit-state BFS over request histories on the real application (fresh import per replay), states '
                  'deduplicated by a canonical walk of all retained objects; per-transition differential oracle against a '
                  'fresh process; fixpoint = bounded retained state; k^N liveness runs with weak references',
-    'text': 'All histories over 24 request kinds are served in every order up to depth 3 (quick) / 4 (thorough; plus BFS with state merging to '
+    'text': 'All histories over 29 request kinds are served in every order up to depth 3 (quick) / 4 (thorough; plus BFS with state merging to '
             'depth 6); every served response is compared with the response of the same request on a freshly '
             'imported framework; each kind is repeated N times and the live per-request objects are counted.',
     'note': 'Bounds: 15 request kinds, depth as stated, N=2000 (thorough 5000). Trusted: CPython gc/weakref, the canonicaliser.',
@@ -51,6 +51,10 @@ class Stream(io.BytesIO):
 
 
 MP_BODY, _ = refmp.build(b'BND', [(refmp.cd('t'), b'v'), (refmp.cd('f', 'n.bin', 'text/plain'), b'data')], epilogue=b'\r\n')
+MP_RICH, _ = refmp.build(b'BND', [(refmp.cd('f', 'pic.png', 'image/png') + b'\r\nX-Upload-Token: alice-s3cr3t', b'PNGDATA')], epilogue=b'\r\n')
+MP_BARE, _ = refmp.build(b'BND', [(refmp.cd('f', 'plain.bin'), b'BIN')], epilogue=b'\r\n')
+MP_VAR, _ = refmp.build(b'BND', [(refmp.cd('f', 'v.bin') + b'\r\nX-H{i}: v{i}', b'V')], epilogue=b'\r\n')
+SESSION_SECRET = 'k9'
 KINDS = [
     ('ok', 'GET', '/ok', {}),
     ('set', 'GET', '/set', {'qs': 'a=1', 'headers': {'Cookie': 'k=v'}}),
@@ -59,14 +63,20 @@ KINDS = [
     ('405', 'GET', '/only-post', {}),
     ('badpath', 'GET', '/bad\xe9path', {}),
     ('400', 'POST', '/body', {'body': b'zz\r\n', 'chunked': True}),
-    ('413', 'POST', '/body', {'body': b'0123456789abcdef'}),
+    ('413', 'POST', '/body', {'body': b'0123456789abcdef' * 14}),
     ('500', 'GET', '/crash', {}),
     ('404json', 'GET', '/missing/json', {'headers': {'Accept': 'application/json'}}),
-    ('413json', 'POST', '/body', {'body': b'0123456789abcdefgh', 'headers': {'Accept': 'application/json'}, 'qs': 'long=query-string'}),
+    ('413json', 'POST', '/body', {'body': b'0123456789abcdefgh' * 14, 'headers': {'Accept': 'application/json'}, 'qs': 'long=query-string'}),
     ('head', 'HEAD', '/ok', {}),
     ('redirect', 'GET', '/redirect', {}),
     ('form', 'POST', '/form', {'body': b'a=1&a=2', 'ctype': 'application/x-www-form-urlencoded'}),
     ('upload', 'POST', '/upload', {'body': MP_BODY[:8], 'ctype': 'multipart/form-data; boundary=BND'}),
+    ('upload-full', 'POST', '/upload', {'body': MP_BODY, 'ctype': 'multipart/form-data; boundary=BND'}),
+    # uploads whose part headers differ (the handler reports the headers of the part), a signed session cookie the handler edits
+    ('upload-rich', 'POST', '/upinfo', {'body': MP_RICH, 'ctype': 'multipart/form-data; boundary=BND'}),
+    ('upload-bare', 'POST', '/upinfo', {'body': MP_BARE, 'ctype': 'multipart/form-data; boundary=BND'}),
+    ('session', 'GET', '/session', {'headers': {'Cookie': '@session'}}),
+    ('uploadvar', 'POST', '/upinfo', {'body': MP_VAR, 'ctype': 'multipart/form-data; boundary=BND'}),
     # a static file served plainly, with a Range and with If-Modified-Since; literal and wildcard sibling routes
     ('static', 'GET', '/static/f.txt', {}),
     ('static-range', 'GET', '/static/f.txt', {'headers': {'Range': 'bytes=2-5'}}),
@@ -101,7 +111,7 @@ def _static_root():
 def fresh_app():
     om = sut.load(fresh=True)
     app = om.default_app()
-    app.setup({'max_body_size': 8})
+    app.setup({'max_body_size': 200})
 
     def ok():
         return 'ok'
@@ -131,6 +141,18 @@ def fresh_app():
 
     def upload():
         return repr(sorted(app.request.forms.items())) + repr(sorted(app.request.files))
+    def upinfo():
+        f = app.request.files['f']
+        return repr((f.filename, f.content_type, sorted((k, str(getattr(v, 'value', v))) for k, v in f.headers.items()), f.file.read()))
+
+    def session():
+        s = app.request.get_cookie('sess', secret=SESSION_SECRET)
+        s['visits'] += 1
+        s['trail'].append('page')
+        app.response.set_cookie('sess', s, secret=SESSION_SECRET)
+        return 'session:' + repr(sorted(s.items()))
+    app.route('/upinfo', 'POST', upinfo)
+    app.route('/session', 'GET', session)
     app.route('/ok', 'GET', ok)
     app.route('/set', 'GET', setter)
     app.route('/raise', 'GET', raiser)
@@ -162,6 +184,10 @@ def serve(app, k, refs=None, i=0):
     if 'qs' in kw:
         kw['qs'] = kw['qs'].replace('{i}', str(i))
     body = kw.pop('body', None)
+    if body is not None and b'{i}' in body:
+        body = body.replace(b'{i}', str(i).encode())
+    if kw.get('headers', {}).get('Cookie') == '@session':
+        kw['headers'] = dict(kw['headers'], Cookie=session_cookie(app))
     stream = Stream(body or b'')
     env = wsgi.environ(method, path, input=stream, clen=(len(body) if body is not None and not kw.get('chunked') else None), **kw)
     env = Env(env)
@@ -172,6 +198,20 @@ def serve(app, k, refs=None, i=0):
     if c.escaped is not None:
         return ('escaped', repr(c.escaped), b'')
     return (c.status, tuple((str(a), str(b)) for a, b in (c.headers or [])), c.body)
+
+
+_sess = {}
+
+
+def session_cookie(app):
+    """the Cookie header of a browser session: a signed dict, the same for every request of the kind"""
+    om = sut.load()
+    if _sess.get('om') is not om:
+        r = om.HTTPResponse()
+        r.set_cookie('sess', {'visits': 1, 'trail': ['login']}, secret=SESSION_SECRET)
+        _sess['om'] = om
+        _sess['pair'] = 'sess=' + r._cookies['sess'].coded_value
+    return _sess['pair']
 
 
 def build(hist):
@@ -208,7 +248,8 @@ def shards(tier, seed):
     out = []
     for a in range(NK):
         if tier == 'quick':
-            out.append(('seqs', (a,), depth))
+            for b0 in range(0, NK, 7):
+                out.append(('seqs', (a,), depth, (b0, min(b0 + 7, NK))))
         else:
             for b in range(NK):
                 out.append(('seqs', (a, b), depth))
@@ -260,11 +301,14 @@ def growth(seq, reps=(2, 4, 8)):
     return [size_of(k) for k in keys], keys[1] == keys[2]
 
 
-def work_seqs(res, prefix, depth):
-    """every history of the given depth that starts with prefix: each response compared with the fresh-process one"""
+def work_seqs(res, prefix, depth, second=None):
+    """every history of the given depth that starts with prefix (second = range of the second request: sharding):
+    each response compared with the fresh-process one"""
     import itertools
     c = res['counters']
     for rest in itertools.product(range(NK), repeat=depth - len(prefix)):
+        if second is not None and not (second[0] <= rest[0] < second[1]):
+            continue
         hist = tuple(prefix) + rest
         core.track(res, {'kind': 'carry-over', 'hist': list(hist)})
         om, app, out = build(hist)
@@ -314,7 +358,7 @@ def _work(spec):
     res = core.new_result()
     c = res['counters']
     if kind == 'seqs':
-        work_seqs(res, spec[1], spec[2])
+        work_seqs(res, spec[1], spec[2], spec[3] if len(spec) > 3 else None)
         return res
     if kind == 'growth':
         work_growth(res, spec[1])
